@@ -100,7 +100,8 @@ def listing(d):
     return sorted(out, key=lambda x: x if isinstance(x, str) else x[0])
 
 
-IDENT = {"safe": ("my.dep_1", "1.2.3"), "spaced": ("my widget,x", "1.0+b.5")}
+PAGE_TEXT = "x \u00e9\u4e2d\U0001F600 <&>"
+IDENT = {"safe": ("my.dep_1", "1.2.3"), "spaced": ("my widget,x", "1.0+b.5"), "same-dict-twice": ("my.dep_1", "1.2.3")}
 
 
 def make_dep(scripts, style, all_files, source_kind, missing=(), ident="safe"):
@@ -119,6 +120,10 @@ def make_dep(scripts, style, all_files, source_kind, missing=(), ident="safe"):
     kw = {}
     if source is not None:
         kw["source"] = source
+    if ident == "same-dict-twice":
+        d = {"src": scripts[0]}
+        return HTMLDependency(IDENT["safe"][0], IDENT["safe"][1], script=[d, d],
+                              stylesheet=[{"href": style}] if style else [], all_files=all_files, **kw)
     return HTMLDependency(IDENT[ident][0], IDENT[ident][1], script=[{"src": s} for s in scripts],
                           stylesheet=[{"href": style}] if style else [], all_files=all_files, **kw)
 
@@ -127,6 +132,8 @@ def fn(case):
     from htmltools import HTMLDocument, Tag, TagList
     scripts, style, all_files, source_kind, libdir, incv, stale, caller, missing = case[:9]
     ident = case[9] if len(case) > 9 else "safe"
+    if ident == "same-dict-twice":
+        scripts = [scripts[0], scripts[0]]
     dname, dver = IDENT[ident]
     viols = []
     tdir = tempfile.mkdtemp(prefix="c", dir=os.path.join(_FX["root"], "t"))
@@ -153,7 +160,7 @@ def fn(case):
         expect_raise = bool(missing) and local and not all_files
         try:
             if caller == "document":
-                ret = HTMLDocument(Tag("p", "x"), dep).save_html(file, libdir=libdir, include_version=incv)
+                ret = HTMLDocument(Tag("p", PAGE_TEXT), dep).save_html(file, libdir=libdir, include_version=incv)
             elif caller == "tag":
                 ret = Tag("div", "x", dep).save_html(file, libdir=libdir, include_version=incv)
             elif caller == "list":
@@ -193,9 +200,18 @@ def fn(case):
             if caller == "copy_to":
                 dep2.copy_to(destdir, include_version=incv)
             else:
-                HTMLDocument(Tag("p", "x"), dep2).save_html(file, libdir=libdir, include_version=incv)
+                HTMLDocument(Tag("p", PAGE_TEXT), dep2).save_html(file, libdir=libdir, include_version=incv)
         # --- URLs
         src_root = None if not local else dep.source_path_map()["source"]
+        if caller == "document":
+            # the written file is the rendered document, as UTF-8 (the page declares charset utf-8)
+            want = HTMLDocument(Tag("p", PAGE_TEXT), make_dep(scripts if ident != "same-dict-twice" else scripts[:1], style,
+                                                              all_files, source_kind, missing, ident)
+                                ).render(lib_prefix=libdir, include_version=incv)["html"]
+            raw = open(file, "rb").read()
+            if raw != want.encode("utf-8"):
+                viols.append(("saved-file-differs-from-render", "the file written by save_html() is not the UTF-8 encoding "
+                              "of render()['html']", {"observed": raw[:300].decode("utf-8", "replace")}))
         if caller != "copy_to":
             text = open(file, encoding="utf-8").read()
             try:
@@ -254,6 +270,118 @@ def fn(case):
         shutil.rmtree(tdir, ignore_errors=True)
 
 
+def fn_inplace(case):
+    """the dependency's source directory IS the directory its files are to be copied to
+    (libdir=None, include_version=False, source <dir-of-html>/<name>): saving must leave every
+    source file in place and byte-identical, and the URLs must name them."""
+    from htmltools import HTMLDependency, HTMLDocument, Tag
+    files, all_files, caller = case[:3]
+    nested = len(case) > 3 and case[3] == "source-inside-target"
+    viols = []
+    tdir = tempfile.mkdtemp(prefix="c", dir=os.path.join(_FX["root"], "t"))
+    try:
+        src = os.path.join(tdir, "widget", "dist") if nested else os.path.join(tdir, "widget")
+        populate(src)
+        before = listing(src)
+        dep = HTMLDependency("widget", "1.0", source={"subdir": src}, script=[{"src": f} for f in files],
+                             all_files=all_files)
+        file = os.path.join(tdir, "index.html")
+        try:
+            if caller == "copy_to":
+                dep.copy_to(tdir, include_version=False)
+            else:
+                HTMLDocument(Tag("p", "x"), dep).save_html(file, libdir=None, include_version=False)
+        except Exception as e:
+            # refusing is acceptable as long as nothing was destroyed
+            if listing(src) != before:
+                viols.append(("inplace:raised-and-destroyed", f"{type(e).__name__} raised and the source directory changed", {}))
+            return (True, "raised", viols, 1)
+        after = listing(src)
+        lost = [x if isinstance(x, str) else x[0] for x in before if x not in after]
+        if lost:
+            viols.append(("inplace:source-destroyed", "saving into the dependency's own source directory deleted or "
+                          "changed source files", {"lost": lost[:10]}))
+        for f in files:
+            if nested:
+                break          # (target is an ancestor of the source: refusing is the only sane outcome)
+            if not os.path.isfile(os.path.join(tdir, "widget", f)):
+                viols.append(("inplace:url-dangling", f"widget/{f} does not exist after save_html", {}))
+                break
+        return (True, "saved", viols, 1)
+    finally:
+        shutil.rmtree(tdir, ignore_errors=True)
+
+
+def fn_cwd(case):
+    """paths relative to the current directory: a bare output file name, and a relative source
+    sub-directory used from two different working directories in one process."""
+    from htmltools import HTMLDependency, HTMLDocument, Tag
+    what, libdir, incv = case
+    viols = []
+    tdir = tempfile.mkdtemp(prefix="c", dir=os.path.join(_FX["root"], "t"))
+    old = os.getcwd()
+    try:
+        projects = []
+        for pn in ("proj1", "proj2"):
+            pd = os.path.join(tdir, pn)
+            os.makedirs(os.path.join(pd, "assets"))
+            with open(os.path.join(pd, "assets", "app.js"), "w") as f:
+                f.write(f"// {pn}")
+            projects.append(pd)
+        for pd in projects:
+            os.chdir(pd)
+            dep = HTMLDependency("app", "1.0", source={"subdir": "assets"}, script={"src": "app.js"})
+            fname = "index.html" if what == "bare-filename" else os.path.join(pd, "out.html")
+            try:
+                ret = HTMLDocument(Tag("p", "x"), dep).save_html(fname, libdir=libdir, include_version=incv)
+            except Exception as e:
+                viols.append((f"cwd:{what}:raises", f"save_html({fname!r}) raised {type(e).__name__}: {e}", {}))
+                break
+            if ret != fname:
+                viols.append((f"cwd:{what}:return", f"returned {ret!r}", {}))
+            sub = os.path.join(pd, *( [libdir] if libdir else []), "app" + ("-1.0" if incv else ""), "app.js")
+            if not os.path.isfile(sub) or open(sub).read() != f"// {os.path.basename(pd)}":
+                viols.append((f"cwd:{what}:wrong-file", "the copied file is not this project's source file "
+                              "(relative source directories are resolved against the current directory at the time of the call)",
+                              {"expected": f"// {os.path.basename(pd)}", "observed": open(sub).read() if os.path.isfile(sub) else None}))
+                break
+            if not os.path.isfile(os.path.join(pd, os.path.basename(fname))):
+                viols.append((f"cwd:{what}:no-html", "html file not written next to the dependencies", {}))
+        return (True, what, viols, 2)
+    finally:
+        os.chdir(old)
+        shutil.rmtree(tdir, ignore_errors=True)
+
+
+def fn_missing_dir(case):
+    """the whole source directory of a dependency with listed files is missing: copying must raise."""
+    from htmltools import HTMLDependency, HTMLDocument, Tag
+    caller, all_files = case
+    viols = []
+    tdir = tempfile.mkdtemp(prefix="c", dir=os.path.join(_FX["root"], "t"))
+    try:
+        dep = HTMLDependency("gone", "1.0", source={"subdir": os.path.join(tdir, "no-such-dir")},
+                             script={"src": "a.js"}, all_files=all_files)
+        before = listing(tdir)
+        try:
+            if caller == "copy_to":
+                dep.copy_to(os.path.join(tdir, "lib"))
+            else:
+                HTMLDocument(Tag("p", "x"), dep).save_html(os.path.join(tdir, "index.html"))
+            raised = False
+        except Exception:
+            raised = True
+        if not all_files:
+            if not raised:
+                viols.append(("fault:missing-source-dir:no-error", "a listed file's whole source directory is missing but "
+                              "copying did not raise", {}))
+            if listing(tdir) != before:
+                viols.append(("fault:missing-source-dir:touched", "destination changed although copying raised / was skipped", {}))
+        return (True, raised, viols, 1)
+    finally:
+        shutil.rmtree(tdir, ignore_errors=True)
+
+
 def plan(tier):
     singles = [[f] for f in FILES]
     pairs = [[FILES[i], FILES[i + 1]] for i in range(len(FILES) - 1)] + [[FILES[-1], FILES[0]]]
@@ -291,7 +419,22 @@ def plan(tier):
     spaced = Prod(Const([[FILES[0]], [FILES[1], FILES[2]], []]), Const([None, STYLE]), Const([False, True]),
                   Const(["dir", "package", "url"]), Const(["lib", None, "x/y"]), Const([True, False]),
                   Const(["absent", "dir"]), Const(["document", "copy_to"]), Const([[]]), Const(["spaced"]))
+    samedict = Prod(Const([[FILES[0]], [FILES[1]], [FILES[-1]]]), Const([None, STYLE]), Const([False, True]),
+                    Const(["dir", "url", "none"]), Const(["lib", None]), Const([True, False]), Const(["absent"]),
+                    Const(["document", "copy_to"]), Const([[]]), Const(["same-dict-twice"]))
+    inplace = Prod(Const([[FILES[0]], [FILES[0], FILES[-1]], []]), Const([False, True]), Const(["document", "copy_to"]),
+                   Const(["source-is-target", "source-inside-target"]))
     return [
+        dict(kind="space", name="relative-paths-and-cwd", fn=fn_cwd, serial=True,
+             space=Prod(Const(["bare-filename", "absolute-filename"]), Const(["lib", None]), Const([True, False])),
+             note="bare output file name; relative source sub-directory used from two working directories in one process"),
+        dict(kind="space", name="missing-source-directory", fn=fn_missing_dir,
+             space=Prod(Const(["copy_to", "document"]), Const([False, True])),
+             note="fault: the whole source directory is missing"),
+        dict(kind="space", name="same-item-object-listed-twice", space=samedict, fn=fn,
+             note="script=[d, d] with ONE dict object: both URLs are prefix/name-version/path, the file is copied"),
+        dict(kind="space", name="source-directory-is-the-target", space=inplace, fn=fn_inplace,
+             note="source = <dir of the html file>/<name>, libdir=None, include_version=False: nothing may be destroyed"),
         dict(kind="space", name="name-and-version-with-reserved-characters", space=spaced, fn=fn,
              note="dependency named 'my widget,x' version '1.0+b.5' (space, comma, plus): the directory part of the URL "
                   "is written literally and must name the directory the files were copied to"),
